@@ -156,6 +156,95 @@ pub fn guarded<R>(f: impl FnOnce() -> R) -> Result<R, String> {
     }
 }
 
+
+// ---------------------------------------------------------------------------------------------
+// per-case watchdog: a case (or transition) that is still running after EGV_CASE_CAP_S seconds (default 120 s
+// quick / 900 s thorough; ordinary cases take micro- to milliseconds) is reported as a violation of the clause
+// "terminates" instead of letting the whole part run into its cap
+
+use std::sync::atomic::{AtomicBool, AtomicU64, Ordering};
+
+const WD_SLOTS: usize = 256;
+#[allow(clippy::declare_interior_mutable_const)]
+const WD_ZERO: AtomicU64 = AtomicU64::new(0);
+static WD_START: [AtomicU64; WD_SLOTS] = [WD_ZERO; WD_SLOTS];
+static WD_A: [AtomicU64; WD_SLOTS] = [WD_ZERO; WD_SLOTS];
+static WD_B: [AtomicU64; WD_SLOTS] = [WD_ZERO; WD_SLOTS];
+static WD_EPOCH: std::sync::OnceLock<Instant> = std::sync::OnceLock::new();
+/// where a hang is reported: Part(out file) writes `<out>.hang` and exits 17; Replay(property, file) prints the verdict
+pub enum HangMode {
+    Part(PathBuf),
+    Replay(String, PathBuf),
+}
+static WD_MODE: std::sync::OnceLock<HangMode> = std::sync::OnceLock::new();
+pub const HANG_EXIT: i32 = 17;
+
+fn wd_now() -> u64 {
+    WD_EPOCH.get_or_init(Instant::now).elapsed().as_millis() as u64 + 1
+}
+fn wd_slot() -> usize {
+    rayon::current_thread_index().map(|i| i + 1).unwrap_or(0) % WD_SLOTS
+}
+fn wd_enter(a: u64, b: u64) {
+    let s = wd_slot();
+    WD_A[s].store(a, Ordering::Relaxed);
+    WD_B[s].store(b, Ordering::Relaxed);
+    WD_START[s].store(wd_now(), Ordering::Release);
+}
+fn wd_leave() {
+    WD_START[wd_slot()].store(0, Ordering::Release);
+}
+fn case_cap_ms(tier: Tier) -> u64 {
+    std::env::var("EGV_CASE_CAP_S").ok().and_then(|s| s.parse::<u64>().ok()).unwrap_or(tier.pick(120, 900)) * 1000
+}
+
+/// Runs `body` while a watchdog thread looks at the slots of the worker threads; `resolve(a, b)` gives the case text
+fn with_watchdog<R>(tier: Tier, group: &str, resolve: &(dyn Fn(u64, u64) -> String + Sync), body: impl FnOnce() -> R) -> R {
+    let stop = AtomicBool::new(false);
+    let cap = case_cap_ms(tier);
+    std::thread::scope(|sc| {
+        sc.spawn(|| {
+            while !stop.load(Ordering::Acquire) {
+                std::thread::sleep(std::time::Duration::from_millis(100));
+                let now = wd_now();
+                for s in 0..WD_SLOTS {
+                    let st = WD_START[s].load(Ordering::Acquire);
+                    if st != 0 && now.saturating_sub(st) > cap {
+                        let (a, b) = (WD_A[s].load(Ordering::Relaxed), WD_B[s].load(Ordering::Relaxed));
+                        if WD_START[s].load(Ordering::Acquire) != st {
+                            continue;
+                        }
+                        let text = resolve(a, b);
+                        let detail = format!("the case was still running after {} s (ordinary cases take milliseconds)", cap / 1000);
+                        match WD_MODE.get() {
+                            Some(HangMode::Part(out)) => {
+                                let v = serde_json::json!({"group": group, "clause": "terminates", "case": text, "detail": detail});
+                                let mut f = out.clone().into_os_string();
+                                f.push(".hang");
+                                let _ = std::fs::write(PathBuf::from(f), serde_json::to_vec(&v).unwrap());
+                                eprintln!("HANG group={group} case={text}");
+                                std::process::exit(HANG_EXIT);
+                            }
+                            Some(HangMode::Replay(prop, file)) => {
+                                println!("observed: clause=terminates detail={detail}");
+                                println!("VIOLATION property={} replay={}", prop, file.display());
+                                std::process::exit(1);
+                            }
+                            None => {
+                                eprintln!("HANG group={group} case={text} ({detail})");
+                                std::process::exit(HANG_EXIT);
+                            }
+                        }
+                    }
+                }
+            }
+        });
+        let r = body();
+        stop.store(true, Ordering::Release);
+        r
+    })
+}
+
 // ---------------------------------------------------------------------------------------------
 // per-case observation
 
@@ -431,9 +520,16 @@ impl Run {
         if let Some(rp) = &self.replay {
             if rp.group == group {
                 let c: C = serde_json::from_value(rp.case.clone()).expect("replay case parses for this group");
+                let text = case_text(&c);
                 for _ in 0..2 {
                     let mut obs = Obs::new();
-                    if let Err(p) = guarded(|| f(&c, &mut obs)) {
+                    let r = with_watchdog(self.tier, group, &|_, _| text.clone(), || {
+                        wd_enter(0, 0);
+                        let r = guarded(|| f(&c, &mut obs));
+                        wd_leave();
+                        r
+                    });
+                    if let Err(p) = r {
                         obs.fail("no-panic", p);
                     }
                     self.replay_results.push(obs.violations);
@@ -445,12 +541,16 @@ impl Run {
         let sweep_no = self.sweep_no;
         let part = self.part.clone();
         let variant = this_variant().to_string();
-        let acc = (0..n)
+        let tier = self.tier;
+        let acc = with_watchdog(tier, group, &|a, _| case_text(&get(a as usize)), || (0..n)
             .into_par_iter()
             .fold(Acc::default, |mut acc, i| {
                 let c = get(i);
                 let mut obs = Obs::new();
-                if let Err(p) = guarded(|| f(&c, &mut obs)) {
+                wd_enter(i as u64, 0);
+                let r = guarded(|| f(&c, &mut obs));
+                wd_leave();
+                if let Err(p) = r {
                     obs.fail("no-panic", p);
                 }
                 acc.evals += 1;
@@ -502,7 +602,7 @@ impl Run {
                 }
                 acc
             })
-            .reduce(Acc::default, Acc::merge);
+            .reduce(Acc::default, Acc::merge));
         let mut samples = vec![];
         if n > 0 {
             let mut idx = vec![0, n / 2, n - 1];
@@ -577,14 +677,20 @@ impl Run {
             if rp.group == group {
                 let pc: PathCase<M::Init, M::Action> =
                     serde_json::from_value(rp.case.clone()).expect("replay path parses");
+                let text = case_text(&pc);
                 for _ in 0..2 {
                     let mut obs = Obs::new();
-                    let r = guarded(|| {
-                        let mut s = model.init(&pc.init);
-                        model.check_state(&pc.init, &s, &mut obs);
-                        for a in &pc.actions {
-                            s = model.step(&pc.init, &s, a, &mut obs);
-                        }
+                    let r = with_watchdog(self.tier, group, &|_, _| text.clone(), || {
+                        wd_enter(0, 0);
+                        let r = guarded(|| {
+                            let mut s = model.init(&pc.init);
+                            model.check_state(&pc.init, &s, &mut obs);
+                            for a in &pc.actions {
+                                s = model.step(&pc.init, &s, a, &mut obs);
+                            }
+                        });
+                        wd_leave();
+                        r
                     });
                     if let Err(p) = r {
                         obs.fail("no-panic", p);
@@ -657,19 +763,33 @@ impl Run {
                 next: Option<(M::State, u64)>,
                 obs: Obs,
             }
-            let outs: Vec<Vec<Out<M>>> = frontier
+            let tier = self.tier;
+            let resolve = |fi: u64, ai: u64| -> String {
+                let n = &frontier[fi as usize];
+                let init = &inits[n.init_ix];
+                let mut hist = n.hist.clone();
+                if let Some(a) = model.actions(init, &n.state, level).into_iter().nth(ai as usize) {
+                    hist.push(a);
+                }
+                case_text(&PathCase::<M::Init, M::Action> { init: init.clone(), actions: hist })
+            };
+            let outs: Vec<Vec<Out<M>>> = with_watchdog(tier, group, &resolve, || frontier
                 .par_iter()
-                .map(|n| {
+                .enumerate()
+                .map(|(fi, n)| {
                     let init = &inits[n.init_ix];
                     let acts = model.actions(init, &n.state, level);
                     acts.into_iter()
-                        .map(|a| {
+                        .enumerate()
+                        .map(|(ai, a)| {
                             let mut obs = Obs::new();
+                            wd_enter(fi as u64, ai as u64);
                             let r = guarded(|| {
                                 let s2 = model.step(init, &n.state, &a, &mut obs);
                                 let k = model.key(&s2);
                                 (s2, k)
                             });
+                            wd_leave();
                             let mut hist = n.hist.clone();
                             hist.push(a);
                             let next = match r {
@@ -683,7 +803,7 @@ impl Run {
                         })
                         .collect()
                 })
-                .collect();
+                .collect());
             let mut next_frontier: Vec<Node<M>> = vec![];
             let mut trans_level = 0u64;
             for out in outs.into_iter().flatten() {
@@ -1034,10 +1154,11 @@ pub fn main(prop: Prop) -> ! {
     }
     if let Some(part) = &args.part {
         // child: run one part, write the report
+        let out = args.out.expect("--out");
+        let _ = WD_MODE.set(HangMode::Part(out.clone()));
         let mut run = Run::new(args.tier, part, seed());
         (prop.run_part)(&mut run);
         let rep = run.finish();
-        let out = args.out.expect("--out");
         std::fs::write(&out, serde_json::to_vec(&rep).unwrap()).expect("write part report");
         std::process::exit(0);
     }
@@ -1067,6 +1188,9 @@ fn replay_main(prop: &Prop, file: &Path, child: bool) -> i32 {
     let clause = v["clause"].as_str().unwrap_or("").to_string();
     let mut run = Run::new(tier, &part, seed());
     run.replay = Some(Replay { group: v["group"].as_str().unwrap_or("").to_string(), case: v["case"].clone() });
+    println!("replay property={} part={} variant={} group={} case={}", prop.id, part, variant, v["group"], v["case"]);
+    println!("recorded: clause={} detail={}", clause, v["detail"].as_str().unwrap_or(""));
+    let _ = WD_MODE.set(HangMode::Replay(prop.id.to_string(), file.to_path_buf()));
     (prop.run_part)(&mut run);
     if run.replay_results.len() != 2 {
         eprintln!("replay: group {:?} was not found in part {:?} (results {})", v["group"], part, run.replay_results.len());
@@ -1076,8 +1200,6 @@ fn replay_main(prop: &Prop, file: &Path, child: bool) -> i32 {
         eprintln!("replay: two executions of the same case diverge — machinery error\n1: {:?}\n2: {:?}", run.replay_results[0], run.replay_results[1]);
         return 2;
     }
-    println!("replay property={} part={} variant={} group={} case={}", prop.id, part, variant, v["group"], v["case"]);
-    println!("recorded: clause={} detail={}", clause, v["detail"].as_str().unwrap_or(""));
     let res = &run.replay_results[0];
     if res.is_empty() {
         println!("observed: no violation (the case passes on this tree)");
@@ -1145,6 +1267,25 @@ fn orchestrate(prop: &Prop, tier: Tier, dump: Option<&Path>) -> i32 {
             }
         };
         let ok = status.map(|s| s.success()).unwrap_or(false);
+        // a case that did not terminate within the per-case cap (reported by the child's watchdog)
+        if status.and_then(|s| s.code()) == Some(HANG_EXIT) {
+            let mut hf = out.clone().into_os_string();
+            hf.push(".hang");
+            let hf = PathBuf::from(hf);
+            if let Some(h) = std::fs::read(&hf).ok().and_then(|b| serde_json::from_slice::<serde_json::Value>(&b).ok()) {
+                let _ = std::fs::remove_file(&hf);
+                crash_violations.push(Violation {
+                    part: p.name.clone(),
+                    variant: p.variant.to_string(),
+                    group: h["group"].as_str().unwrap_or("").to_string(),
+                    clause: "terminates".into(),
+                    case: h["case"].as_str().unwrap_or("").to_string(),
+                    detail: h["detail"].as_str().unwrap_or("").to_string(),
+                    order: (0, 0),
+                });
+                continue;
+            }
+        }
         if !ok {
             let announced = read_announced(prop.id);
             if prop.crash_is_verdict {
